@@ -131,3 +131,53 @@ def expand_bounded(f, limit=64):
     if hi <= lo:
         return z3.BoolVal(True)
     return z3.And(*[z3.substitute_vars(z3.Implies(guard, inner), z3.IntVal(v)) for v in range(lo, hi)])
+
+
+def free_consts(formulas):
+    seen, out, stack = set(), {}, list(formulas)
+    while stack:
+        e = stack.pop()
+        if e.get_id() in seen:
+            continue
+        seen.add(e.get_id())
+        if z3.is_quantifier(e):
+            stack.append(e.body())
+            continue
+        if z3.is_app(e):
+            if e.num_args() == 0 and e.decl().kind() == z3.Z3_OP_UNINTERPRETED:
+                out[e.decl().name()] = e
+            stack.extend(e.children())
+    return out
+
+
+PALETTE = ['1/2', '1', '3/2', '2', '3', '1/3', '1/4', '2/3', '5/4', '-1/2', '-1', '-2', '1/5', '7/3', '0', '-3/2', '4', '1/10']
+
+
+def refute_by_sampling(formulas, tries=40, timeout_ms=1500, seed=0, budget_s=40):
+    """search for a model of a (nonlinear) query by guessing: random small rationals are substituted for most real constants, the solver decides the
+    small remaining query.  Any model found this way is a model of the original query (a guessed part plus a solved part); nothing else is concluded."""
+    import random
+    rng = random.Random(seed)
+    consts = free_consts(formulas)
+    reals = sorted(n for n, c in consts.items() if z3.is_real(c))
+    if not reals:
+        return None
+    t0 = time.time()
+    for k in range(tries):
+        if time.time() - t0 > budget_s:
+            break
+        keep = set(rng.sample(reals, min(len(reals), rng.choice([0, 1, 2, 3]))))
+        sub = [(consts[n], z3.RealVal(rng.choice(PALETTE))) for n in reals if n not in keep]
+        fs = [z3.simplify(z3.substitute(f, *sub)) for f in formulas]
+        if any(z3.is_false(f) for f in fs):
+            continue
+        sv = z3.Solver()
+        sv.set('timeout', int(timeout_ms))
+        for f in fs:
+            sv.add(f)
+        if sv.check() == z3.sat:
+            m = sv.model()
+            model = {str(c): str(v) for c, v in sub}
+            model.update({str(d): str(m[d]) for d in m.decls() if d.arity() == 0})
+            return {'status': 'sat', 'backend': 'z3-%s (model by sampling + solving)' % z3.get_version_string(), 'time': time.time() - t0, 'model': model}
+    return None
